@@ -56,10 +56,12 @@ func caseGen() *rapid.Generator[Case] {
 			case "dense":
 				st.When = rapid.IntRange(0, 3).Draw(t, "when")
 				st.N = rapid.IntRange(1, 11).Draw(t, "n")
+				st.Err = rapid.IntRange(0, 2).Draw(t, "err") == 0
 			case "seedcell":
 				st.Ref = rapid.IntRange(0, 7).Draw(t, "ref")
 				st.Col = rapid.IntRange(0, 7).Draw(t, "ref2")
 				st.Target = rapid.IntRange(0, 2).Draw(t, "followup")
+				st.N = rapid.SampledFrom([]int{1, 1, 2, 3, 3, 4, 5, 6, 7, 9}).Draw(t, "nseed")
 				st.Via2 = rapid.IntRange(0, 2).Draw(t, "via2") == 0
 			case "reg":
 				st.Owner = rapid.SampledFrom(ownerKinds).Draw(t, "owner")
@@ -68,6 +70,7 @@ func caseGen() *rapid.Generator[Case] {
 				st.When = rapid.IntRange(0, 3).Draw(t, "when")
 				st.Target = rapid.IntRange(0, 2).Draw(t, "target")
 				st.Via2 = rapid.IntRange(0, 4).Draw(t, "via2") == 0
+				st.Err = rapid.IntRange(0, 3).Draw(t, "err") == 0
 				if rapid.IntRange(0, 5).Draw(t, "many") == 0 {
 					st.N = rapid.IntRange(2, 11).Draw(t, "n") // slices grow in steps: 3, 5, 9 entries leave spare capacity
 				}
@@ -123,16 +126,16 @@ func TestEnum(t *testing.T) {
 		var c Case
 		for i, op := range ops {
 			if i == at {
-				for _, r := range regs {
-					c.Steps = append(c.Steps, Step{K: "reg", Owner: r.owner, Ref: -1, Col: 1, When: r.when, Target: r.target})
+				for ri, r := range regs {
+					c.Steps = append(c.Steps, Step{K: "reg", Owner: r.owner, Ref: -1, Col: 1, When: r.when, Target: r.target, Err: len(regs) > 1 && ri == 0})
 				}
 			}
 			op := op
 			c.Steps = append(c.Steps, Step{K: "op", Op: &op})
 		}
 		if at >= len(ops) {
-			for _, r := range regs {
-				c.Steps = append(c.Steps, Step{K: "reg", Owner: r.owner, Ref: -1, Col: 1, When: r.when, Target: r.target})
+			for ri, r := range regs {
+				c.Steps = append(c.Steps, Step{K: "reg", Owner: r.owner, Ref: -1, Col: 1, When: r.when, Target: r.target, Err: len(regs) > 1 && ri == 0})
 			}
 		}
 		vias := []string{"csv", "html", "json", "markdown", "texttable"}
@@ -154,5 +157,5 @@ func TestEnum(t *testing.T) {
 			}
 		}
 	}
-	ev.R().Sub(ev.SubRun{Name: "registration-matrix", Bound: fmt.Sprintf("48 registrations singly%s x every registration point of %d shapes, two render passes each", map[bool]string{true: " and all 2304 ordered pairs", false: ""}[pairs], len(shapes())), Cases: n, Exhaustive: true})
+	ev.R().Sub(ev.SubRun{Name: "registration-matrix", Bound: fmt.Sprintf("48 registrations singly%s x every registration point of %d shapes, two render passes each", map[bool]string{true: " and all 2304 ordered pairs (the first of a pair reports an error after doing its work)", false: ""}[pairs], len(shapes())), Cases: n, Exhaustive: true})
 }
